@@ -20,7 +20,7 @@ func init() {
 			"write or flush through that writer that can run while the goroutine exists — in the goroutine, in the spawning function after the spawn, and in same-package helpers they call — executes with one common mutex " +
 			"held (must-lockset, inherited through call sites); (terminal-once) SSE writes `event: complete` exactly once on every path that wrote the stream preamble and writes no event after it; multipart/mixed defers " +
 			"aggregator.Done right after creating the aggregator, and Done signals the ticker goroutine before its final flush; (pending-queue) the aggregator's pending payloads are accessed only under its mutex, a " +
-			"snapshot of the pending slice is not read after the mutex is released unless the queue was given a new backing array (set to nil) under the same lock, and whatever is written is removed from the queue on every path before the lock is released.",
+			"snapshot of the pending slice is not read after the mutex is released unless the queue was given a new backing array (set to nil) under the same lock, and whatever is written is removed from the queue on every path before the lock is released. (format-constant) every fmt.Fprintf in package transport has a constant format (through helper parameters: at every call site).",
 		NotDecided:  "that the bytes parse as complete events/MIME parts for every timing (needs the value of every write); the aggregator's hasNext logic; client disconnect handling inside net/http",
 		Assumptions: []string{"http.ResponseWriter is not safe for concurrent use", "one critical section per event is what keeps pings from being spliced into events"},
 	})
